@@ -22,7 +22,7 @@ from concurrent.futures import ThreadPoolExecutor
 
 VERIF = os.path.dirname(os.path.dirname(os.path.abspath(__file__)))
 REPO = os.environ.get("VERIF_REPO", "/repo")
-COQ = os.path.join(VERIF, "coq")
+COQ = os.environ.get("VERIF_COQ_DIR", os.path.join(VERIF, "coq"))   # seeded-change runs use their own copy
 BUILD = os.environ.get("VERIF_BUILD_DIR", os.path.join(VERIF, "build"))   # seeded-change runs build elsewhere
 REPLAYS = os.environ.get("VERIF_REPLAYS_DIR", os.path.join(VERIF, "replays"))
 EVIDENCE = os.environ.get("VERIF_EVIDENCE_DIR", os.path.join(VERIF, "evidence"))   # seeded-change runs write elsewhere
